@@ -443,11 +443,25 @@ func (d *Datastore) TransactionSet(ctx context.Context, transactionId string, tr
 		return nil, err
 	}
 
-	// Mark the transaction as successfully committed
-	transactionGuard.Success()
+	// Mark the transaction as successfully committed. A dry-run or a transaction that failed validation
+	// did not apply anything and did not start the rollback timer, so it must not remain registered,
+	// otherwise the datastore stays locked until that transaction id is confirmed or canceled.
+	if !dryRun && !transactionResponseHasErrors(response) {
+		transactionGuard.Success()
+	}
 
 	log.Infof("Transaction: %s - transacted", transactionId)
 	return response, err
+}
+
+// transactionResponseHasErrors returns true if any of the intents in the response carries validation errors.
+func transactionResponseHasErrors(rsp *sdcpb.TransactionSetResponse) bool {
+	for _, intentRsp := range rsp.GetIntents() {
+		if len(intentRsp.GetErrors()) > 0 {
+			return true
+		}
+	}
+	return false
 }
 
 func cacheUpdateToSdcpbUpdate(lvs tree.LeafVariantSlice) ([]*sdcpb.Update, error) {
